@@ -285,10 +285,15 @@ fn cast_source(s: &str, t: &str) -> String {
 }
 
 fn check_run(ctx: &mut Ctx, c: &Compiled, name: &str, args: &[BigInt], expect: Expect, src: &str) {
+    check_run_fn(ctx, c, "f", name, args, expect, src)
+}
+
+fn check_run_fn(ctx: &mut Ctx, c: &Compiled, func: &str, name: &str, args: &[BigInt], expect: Expect, src: &str) {
     if expect == Expect::Skip {
         return;
     }
-    let f = &c.program.funcs.iter().find(|f| fname(f).ends_with("::f")).expect("f");
+    let suffix = format!("::{func}");
+    let f = &c.program.funcs.iter().find(|f| fname(f).ends_with(&suffix)).expect("function");
     let a: Vec<cairo_lang_runner::Arg> = args.iter().map(|v| cairo_lang_runner::Arg::Value(to_felt(v))).collect();
     ctx.count("evaluations", 1);
     let r = guarded(|| run(c, f, &a, Some(100_000_000)));
@@ -382,6 +387,50 @@ fn run_all(ctx: &mut Ctx) {
                     },
                 );
             }
+        }
+    }
+    // literal-operand variants: `a op LIT` and `LIT op a`. With one operand known at compile time the compiler
+    // takes different paths (identity / absorbing-element rewrites, `x + 1` / `x - 1` -> the inc / dec helpers of
+    // the corelib, specialised libfuncs with a constant operand); the operation must stay exact on them.
+    for t in TYPES {
+        let mut lits: Vec<BigInt> = vec![BigInt::zero(), BigInt::one(), BigInt::from(2), t.max(), t.max() - 1];
+        if t.signed {
+            lits.extend([BigInt::from(-1), t.min(), t.min() + 1]);
+        }
+        for op in ops() {
+            if op.arity != 2 {
+                continue;
+            }
+            let Some(body) = (op.body)(t) else { continue };
+            let mut src = String::new();
+            for (k, lit) in lits.iter().enumerate() {
+                src.push_str(&format!("fn r{k}(a: {0}) -> {1} {{ let b: {0} = {lit}; {body} }}\nfn l{k}(b: {0}) -> {1} {{ let a: {0} = {lit}; {body} }}\n", t.name, op.ret));
+            }
+            let name = format!("{}::{}", t.name, op.name);
+            ctx.case(
+                || json!({"space":"int-ops-literal-operand","type":t.name,"op":op.name}),
+                |ctx| {
+                    let prog = match dbs.compile(&cfg, &src) {
+                        Ok(p) => p,
+                        Err(e) => {
+                            ctx.count("ops_not_compiling", 1);
+                            ctx.note(format!("{name} (literal operand): {}", e.chars().take(150).collect::<String>()));
+                            return;
+                        }
+                    };
+                    let Ok(c) = make_runner(prog, &cfg) else { return };
+                    ctx.count("functions", 2 * lits.len() as i64);
+                    let dom: Vec<BigInt> = if t.bits == 8 { t.all() } else { t.boundary() };
+                    for (k, lit) in lits.iter().enumerate() {
+                        for x in &dom {
+                            ctx.distinct(&(name.as_str(), "r", lit.to_string(), x.to_string()));
+                            check_run_fn(ctx, &c, &format!("r{k}"), &format!("{name}:rhs={lit}"), &[x.clone()], (op.model)(t, x, lit), &src);
+                            ctx.distinct(&(name.as_str(), "l", lit.to_string(), x.to_string()));
+                            check_run_fn(ctx, &c, &format!("l{k}"), &format!("{name}:lhs={lit}"), &[x.clone()], (op.model)(t, lit, x), &src);
+                        }
+                    }
+                },
+            );
         }
     }
     // casts: every ordered pair of integer types (+ felt252 source), exhaustive for 8/16-bit sources
@@ -614,7 +663,7 @@ fn u256v(v: BigInt) -> Expect {
 pub static C06: CheckDef = CheckDef {
     id: "C06",
     level: "exploration",
-    rule: "Operation table generated from the corelib trait surface: for each of u8,u16,u32,u64,u128,i8,i16,i32,i64,i128: + - * / % < <= > >= == != & | ^ ~ neg, overflowing_/wrapping_/checked_/saturating_{add,sub,mul}, wide_mul, div_rem, sqrt, pow(small exponents), into felt252, is_zero, min, max; try_into between every ordered pair of integer types and from felt252; felt252 + - * / neg ==, felt252->u256; u256 + - * / % & | ^ < <= == sqrt wrapping_add overflowing_mul. Each (op,T) is a tiny Cairo function compiled alone and run through Cairo->Sierra->CASM->VM; the model is num-bigint. Operands: ALL 65 536 pairs (256 values for unary) for 8-bit types on the ops marked exhaustive (thorough: all ops; casts exhaustive from 8-bit sources, 16-bit in thorough); the full cross product of boundary sets {MIN,MIN+1,-1,0,1,2,MAX-1,MAX, +-2^k+-1 at k=7,8,15,16,31,32,63,64,127} for wider types; 5^4 limb combinations for u256. Plus RESULT-DIRECTED pairs for every binary op of the wider types and of u256: a = q*b + r with the quotient q on a boundary (0, 1, 2, -1, 2^(bits/2) +-1, MAX-1, MAX, MIN, b +-1) and r in {0, +-1, +-(|b|-1)}; sums, differences and products next to MIN and MAX (a = MAX - b +-1, MIN - b +-1, b + MAX +-1, MAX / b +-1 ...); for u256 also a around s^2 and (s+1)^2 - 1 for boundary roots s. Oracle: value equality, and panic/None/overflow flag iff the mathematical result does not fit. distinct_nontrivial = distinct (function, operands). Plus bounded_int_div_rem over the divrem.rs lattice (16 dividend maxima incl. perfect squares and their neighbours x fixed and derived divisor ranges selecting each of the three verification schemes) on operand pairs derived from the instantiation (divisor and quotient at floor(sqrt(max)) +-1, at each other, T=(P-1)/2^128 +-1, 2^64, 2^128 +-1, range ends; remainders 0, 1, b-1): exact quotient and remainder. Plus the bounded-integer lattice of bounded.rs over 24 ranges (u8, i8, u64, [5,10], [-10,-5], [0,0], [7,7], u128, i128, [1,2^128], [-2^128+1,0], a 2^128-wide range straddling 0, ranges around 2^128 and +-2^250, [0,T-2], [0,T-1], [0,T], [0,2^200], [-2^200,2^200], felt252): downcast between every ordered pair the compiler accepts (all four cast types; from felt252 a value stands for x and x-P), bounded_int_constrain at the boundaries next to either end / middle / 0 / those making a half exactly 2^128 wide, trim_min / trim_max, bounded_int add / sub / mul with the tightest result range - on the values around every constant the generated code compares against (range ends, destination ends, +-2^128 shifts, 0, P-2^128, (P-1)/2): exact flag and value.",
+    rule: "Operation table generated from the corelib trait surface: for each of u8,u16,u32,u64,u128,i8,i16,i32,i64,i128: + - * / % < <= > >= == != & | ^ ~ neg, overflowing_/wrapping_/checked_/saturating_{add,sub,mul}, wide_mul, div_rem, sqrt, pow(small exponents), into felt252, is_zero, min, max; try_into between every ordered pair of integer types and from felt252; felt252 + - * / neg ==, felt252->u256; u256 + - * / % & | ^ < <= == sqrt wrapping_add overflowing_mul. Each (op,T) is a tiny Cairo function compiled alone and run through Cairo->Sierra->CASM->VM; the model is num-bigint. Operands: ALL 65 536 pairs (256 values for unary) for 8-bit types on the ops marked exhaustive (thorough: all ops; casts exhaustive from 8-bit sources, 16-bit in thorough); the full cross product of boundary sets {MIN,MIN+1,-1,0,1,2,MAX-1,MAX, +-2^k+-1 at k=7,8,15,16,31,32,63,64,127} for wider types; 5^4 limb combinations for u256. Every binary op also as `a op LIT` and `LIT op a` with LIT in {0, 1, 2, MAX-1, MAX} (signed: + -1, MIN, MIN+1): with one operand known the compiler takes other paths (identity rewrites, x+-1 -> the corelib inc / dec helpers, constant-operand libfuncs); operands: all 256 values for 8-bit types, the boundary set otherwise. Plus RESULT-DIRECTED pairs for every binary op of the wider types and of u256: a = q*b + r with the quotient q on a boundary (0, 1, 2, -1, 2^(bits/2) +-1, MAX-1, MAX, MIN, b +-1) and r in {0, +-1, +-(|b|-1)}; sums, differences and products next to MIN and MAX (a = MAX - b +-1, MIN - b +-1, b + MAX +-1, MAX / b +-1 ...); for u256 also a around s^2 and (s+1)^2 - 1 for boundary roots s. Oracle: value equality, and panic/None/overflow flag iff the mathematical result does not fit. distinct_nontrivial = distinct (function, operands). Plus bounded_int_div_rem over the divrem.rs lattice (16 dividend maxima incl. perfect squares and their neighbours x fixed and derived divisor ranges selecting each of the three verification schemes) on operand pairs derived from the instantiation (divisor and quotient at floor(sqrt(max)) +-1, at each other, T=(P-1)/2^128 +-1, 2^64, 2^128 +-1, range ends; remainders 0, 1, b-1): exact quotient and remainder. Plus the bounded-integer lattice of bounded.rs over 24 ranges (u8, i8, u64, [5,10], [-10,-5], [0,0], [7,7], u128, i128, [1,2^128], [-2^128+1,0], a 2^128-wide range straddling 0, ranges around 2^128 and +-2^250, [0,T-2], [0,T-1], [0,T], [0,2^200], [-2^200,2^200], felt252): downcast between every ordered pair the compiler accepts (all four cast types; from felt252 a value stands for x and x-P), bounded_int_constrain at the boundaries next to either end / middle / 0 / those making a half exactly 2^128 wide, trim_min / trim_max, bounded_int add / sub / mul with the tightest result range - on the values around every constant the generated code compares against (range ends, destination ends, +-2^128 shifts, 0, P-2^128, (P-1)/2): exact flag and value.",
     assumptions: &["signed division and remainder truncate toward zero (documented Cairo semantics)", "ample gas; default compiler configuration"],
     run: run_all,
     stack_mb: 16,
